@@ -261,7 +261,26 @@ fn helix_points(r: &mut Rng, n: usize, h: f64, eps: f64) -> Vec<P3> {
 /// points on a straight line in x-y (exactly collinear where the coordinates allow it), any z behaviour
 fn line_points(r: &mut Rng, n: usize, eps: f64) -> Vec<P3> {
     let mut out = Vec::new();
-    match r.below(5) {
+    match r.below(6) {
+        5 => {
+            // hits of one wire in one pad row: the same phi and the same z (or z in pad-row steps), radii
+            // a few 0.1 mm to a few cm apart -- exactly collinear through the axis AND horizontal
+            let phi = match r.below(3) {
+                0 => r.pick(&[0.0, PI, PI / 2.0, 1.019, -0.798, 0.889, 0.905, 1.093]),
+                _ => uniform(r, -PI, PI),
+            };
+            let z0 = uniform(r, -1.0, 1.0);
+            let dz = r.pick(&[0.0, 0.0, 0.004, 1e-300]);
+            let r1 = uniform(r, 0.105, 0.16);
+            for i in 0..n {
+                let rr = match r.below(3) {
+                    0 => r1 + 0.0001 * i as f64,
+                    1 => r1 + r.pick(&[0.002, 0.028, 0.01, 0.0]),
+                    _ => r1 + uniform(r, 0.0, 0.03),
+                };
+                out.push([rr.min(RMAX), phi, (z0 + dz * (i % 3) as f64).clamp(-ZMAX, ZMAX)]);
+            }
+        }
         4 => {
             // radial line at phi = 0 with an angular scatter far below the float resolution elsewhere, but above the
             // class of the open finding `tinyphi` (<= 1e-144): circle radii up to 1e130 m
@@ -586,6 +605,32 @@ pub fn run(tier: &str, seed: u64, s: &mut Sink) {
             let (obs, class) = fit_only(pts.clone());
             s.put(&case_points("rel14kf-tinyphi-f", &pts), &obs, &format!("known-finding:tinyphi:fit:{class}"), true);
         }
+    }
+    // hits of one wire in one pad row (same phi, same z, radii 0.1 mm .. 3 cm apart) at many azimuths: exactly
+    // collinear through the axis in exact arithmetic, but the rounded x, y are not: either NoInitialParameters or a
+    // circle of radius ~1e14 m whose subtended angle rounds to exactly 0 with first.z == last.z
+    for i in 0..(if thorough { 1500 } else { 150 }) {
+        let phi = if i % 3 == 0 { -PI + 2.0 * PI * (i as f64) / 1500.0 } else { uniform(&mut r, -PI, PI) };
+        let r1 = r.pick(&[0.12, 0.123, 0.11, 0.15]) + if i % 2 == 0 { 0.0 } else { uniform(&mut r, 0.0, 0.01) };
+        let z = if i % 4 == 0 { 0.0 } else { uniform(&mut r, -1.0, 1.0) };
+        let mut pts: Vec<P3> = (1..=15).map(|k| [r1 + 0.0001 * k as f64, phi, z]).collect();
+        pts.insert(0, [r1, phi, z]);
+        pts.push([r1 + 0.002, phi, z]);
+        pts.push([r1 + 0.028, phi, z]);
+        let (obs, class) = if i % 5 == 0 { pipeline(pts.clone()) } else { fit_only(pts.clone()) };
+        let tag = if i % 5 == 0 { "rel14p" } else { "rel14f" };
+        s.put(&case_points(tag, &pts), &obs, &format!("wire-row:{class}"), true);
+    }
+    // the same geometry reduced to its three template points (cheap: many azimuths); the subtended angle of the
+    // huge circle rounds to exactly 0 for about one azimuth in a thousand
+    for i in 0..(if thorough { 60000 } else { 6000 }) {
+        let phi = uniform(&mut r, -PI, PI);
+        let r1 = r.pick(&[0.12, 0.123, 0.11, 0.15, 0.158, 0.121, 0.112]) + if i % 2 == 0 { 0.0 } else { uniform(&mut r, 0.0, 0.01) };
+        let z = if i % 4 == 0 { 0.25 } else { uniform(&mut r, -1.0, 1.0) };
+        let (d2, d3) = (r.pick(&[0.002, 0.001, 0.005, 0.0001]), r.pick(&[0.028, 0.02, 0.029, 0.01]));
+        let pts: Vec<P3> = vec![[r1, phi, z], [r1 + d2, phi, z], [r1 + d3, phi, z]];
+        let (obs, class) = fit_only(pts.clone());
+        s.put(&case_points("rel14f", &pts), &obs, &format!("wire-row-3:{class}"), true);
     }
     for _ in 0..n_fit3 {
         // the NoInitialParameters decision: small clusters of every family, so that ties and exact collinearity are common
